@@ -1,5 +1,244 @@
-import ZodbModel.Conn
+/-
+  C11 — In-memory objects follow the outcome of their transaction.
+
+  Property theorems only (helper lemmas live in `Proofs/Conn*.lean`).  The model is
+  `ZodbModel/Conn.lean` (bookkeeping of `ZODB.Connection.Connection`, the `ObjectWriter` stack, the
+  failure handling of the `transaction` package).  Every theorem quantifies over ALL programs in the
+  C11 vocabulary — read, modify, link, unlink (implicit add by reachability), explicit add, commit,
+  commit failing at any phase (`Fail`), conflicting commits of another connection (`ext`), abort,
+  close, reopen — of any length, over any number of objects (`bound`), through `Reachable`.
+
+  The model is of the code after the repair of `_store_objects` (finding
+  C11:new-object-keeps-oid-after-failed-store, fixed).  One defect of the code remains open
+  (C11:stored-new-object-ghostified-on-abort): a NEW object that was already stored when the commit
+  fails is invalidated before it is disowned, so its state is gone.  Therefore the clause "can be added
+  again later" of `failed_commit_outcome` is proved in two parts: the object belongs to no database
+  (full strength), and it still has its state unless the model's flag `d2` was raised
+  (`failed_commit_keeps_state_partial`), with the negation witness `failed_commit_loses_state`.
+-/
+import Proofs.ConnC11
 namespace Props.C11
-open ZodbModel ZodbModel.Conn
-theorem placeholder : init.lastTid = 1 := rfl
+open ZodbModel ZodbModel.Conn Proofs.Conn
+
+/-- the states a C11 program (any list of C11 operations) can reach from a fresh database -/
+def Reachable (bound : Nat) (s : State) : Prop :=
+  ∃ ops : List Op, (∀ op ∈ ops, c11 op = true) ∧ s = run bound init ops
+
+theorem reachable_good {bound : Nat} {s : State} (h : Reachable bound s) : Good s := by
+  obtain ⟨ops, hops, rfl⟩ := h
+  exact run_good bound ops hops init good_init
+
+/-- **commit_outcome.**  After a successful commit (in any reachable state, whatever `Fail` parameter did
+    not make it fail): there is exactly one new transaction, with one tid; every registered object that
+    was changed or added is in it; every record of it is the state of an object of the connection that
+    is now up to date and carries that tid; every new object reachable from a stored one is stored in
+    the same transaction; no other record changed; no object is left changed and the connection's
+    bookkeeping is empty. -/
+theorem commit_outcome (bound : Nat) (s : State) (hr : Reachable bound s) (f : Fail) (tid : Nat)
+    (oids : List Nat) (hout : (txnCommit bound s f).2 = .committed tid oids) :
+    let s' := (txnCommit bound s f).1
+    (tid = s.lastTid + 1 ∧ s'.lastTid = tid ∧ s'.log = (tid, oids) :: s.log) ∧
+    (∀ i ∈ s.registered, ∀ k, (s.objs i).oid = some k →
+      (s.added.get k = some i ∨ (s.objs i).status = .changed) → k ∈ oids) ∧
+    (∀ k ∈ oids, ∃ i, (s'.objs i).oid = some k ∧ s'.cache.get k = some i ∧
+      (s'.objs i).status = .uptodate ∧ (s'.objs i).serial = tid ∧
+      s'.committed.get k = some ⟨tid, (s'.objs i).val, (s'.objs i).refs⟩ ∧
+      ((s.objs i).status ≠ .ghost → (s'.objs i).val = (s.objs i).val ∧ (s'.objs i).refs = (s.objs i).refs) ∧
+      ∀ x ∈ (s'.objs i).refs, ∃ kx, (s'.objs x).oid = some kx ∧ ((s.objs x).oid = none → kx ∈ oids)) ∧
+    (∀ k, k ∉ oids → s'.committed.get k = s.committed.get k) ∧
+    (∀ i, (s'.objs i).status ≠ .changed) ∧
+    (s'.registered = [] ∧ s'.added = [] ∧ s'.creating = [] ∧ s'.needsToJoin = true) :=
+  Proofs.Conn.commit_outcome (reachable_good hr) bound f tid oids hout
+
+/-- what "the transaction is undone" means for the objects, between the state `s` before and the state
+    `s'` after: nothing visible to others changed; the connection is idle; an object of the database
+    keeps its oid, is a ghost if it was modified, and if it is not a ghost it shows the committed record
+    (a ghost is loaded from it on the next access: `ghost_shows_committed`); an object that was not in
+    the database before (new in the transaction, or never added) belongs to no database. -/
+def Undone (s s' : State) : Prop :=
+  shared s' = shared s ∧
+  (s'.registered = [] ∧ s'.added = [] ∧ s'.creating = [] ∧ s'.needsToJoin = true) ∧
+  s'.snap = s'.committed ∧
+  (∀ k j, s.cache.get k = some j → (s'.objs j).oid = some k ∧ s'.cache.get k = some j ∧
+    ((s.objs j).status = .changed → (s'.objs j).status = .ghost) ∧
+    ∃ c, s'.committed.get k = some c ∧
+      ((s'.objs j).status = .uptodate →
+        (s'.objs j).val = c.val ∧ (s'.objs j).refs = c.refs ∧ (s'.objs j).serial = c.serial)) ∧
+  (∀ j, (∀ k, s.cache.get k ≠ some j) →
+    (s'.objs j).oid = none ∧ (s'.objs j).jar = false ∧ (s'.objs j).status ≠ .changed ∧
+    ((s.objs j).status ≠ .ghost →
+      (s'.objs j).val = (s.objs j).val ∧ (s'.objs j).refs = (s.objs j).refs))
+
+/-- **abort_outcome.**  `transaction.abort()` in any reachable state of an open connection undoes the
+    transaction, and every new object keeps its state (it can be added again). -/
+theorem abort_outcome (bound : Nat) (s : State) (hr : Reachable bound s) (hop : s.opened = true) :
+    Undone s (txnAbort s) ∧
+    (∀ j, (∀ k, s.cache.get k ≠ some j) → (s.objs j).status ≠ .ghost →
+      ((txnAbort s).objs j).status ≠ .ghost) := by
+  obtain ⟨rv, hkeep⟩ := Proofs.Conn.abort_outcome (reachable_good hr) hop
+  refine ⟨⟨rv.shared, rv.idle, rv.snapNow, rv.committed, ?_⟩, hkeep⟩
+  intro j hj
+  obtain ⟨h1, h2, h3, h4⟩ := rv.fresh j hj
+  exact ⟨h1, h2, h3, fun hg => ⟨(h4 hg).1, (h4 hg).2.1⟩⟩
+
+/-- **failed_commit_outcome.**  A commit that fails — at ANY phase: `f` ranges over every failure point of
+    `Fail` (a second resource manager before/after the connection in tpc_begin / commit / tpc_vote /
+    tpc_finish, the j-th `store`, `tpc_vote` of the storage), and a conflict with another connection's
+    commit needs no `f` at all — undoes the transaction: already in the state right after the failure,
+    and again after the `transaction.abort()` the application then issues. -/
+theorem failed_commit_outcome (bound : Nat) (s : State) (hr : Reachable bound s)
+    (hop : s.opened = true) (f : Fail) (e : Err) (hout : (txnCommit bound s f).2 = .failed e) :
+    Undone s (txnCommit bound s f).1 ∧
+    Undone (txnCommit bound s f).1 (stepH bound s (.commit f)) := by
+  have hg := reachable_good hr
+  obtain ⟨s0, t, e1, e2, e3, e4, e5, h0, hP, rv⟩ := txnCommit_failed hg hop bound f e hout
+  constructor
+  · refine ⟨by rw [rv.shared, e4], rv.idle, rv.snapNow, ?_, ?_⟩
+    · intro k j hc
+      have := rv.committed k j (by rw [e2]; exact hc)
+      rw [e1] at this; exact this
+    · intro j hj
+      obtain ⟨h1, h2, h3, h4⟩ := rv.fresh j (by rw [e2]; exact hj)
+      rw [e1] at h4
+      exact ⟨h1, h2, h3, fun hg => ⟨(h4 hg).1, (h4 hg).2.1⟩⟩
+  · -- the application's abort after the failure: an abort in an idle state
+    have hf : (step bound s (.commit f)).2.isFailed = true := by
+      show (txnCommit bound s f).2.isFailed = true
+      rw [hout]; rfl
+    rw [stepH_of_failed _ _ _ hf]
+    show Undone (txnCommit bound s f).1 (txnAbortAfterFailure (!s.needsToJoin) (txnCommit bound s f).1)
+    have hi := txnCommit_inv11 hg.1 hg.2 bound f
+    have hbb : (txnCommit bound s f).1.begun = false := by
+      unfold txnCommit; dsimp only; split <;> exact afterCompletion_begun _
+    obtain ⟨hn, hopn⟩ := txnCommit_ntj hg.1 hg.2 bound f
+    have hop' : (txnCommit bound s f).1.opened = true := by rw [hopn]; exact hop
+    have rv2 : Reverted (txnCommit bound s f).1 (txnCommit bound s f).1
+        (txnAbortAfterFailure (!s.needsToJoin) (txnCommit bound s f).1) := by
+      unfold txnAbortAfterFailure
+      dsimp only
+      split
+      · have cf := cleanup_prePoll hi (Prog.refl hi.str) (Or.inr rfl) false (by intro hh; cases hh)
+        rw [cleanup_not_begun hbb] at cf
+        exact reverted_facts hi (Prog.refl hi.str) cf (by rw [cf.clean.2.opened]; exact hop')
+      · exact reverted_facts hi (Prog.refl hi.str) (CleanupFacts.idle hi hn) hop'
+    refine ⟨rv2.shared, rv2.idle, rv2.snapNow, rv2.committed, ?_⟩
+    intro j hj
+    obtain ⟨h1, h2, h3, h4⟩ := rv2.fresh j hj
+    exact ⟨h1, h2, h3, fun hg => ⟨(h4 hg).1, (h4 hg).2.1⟩⟩
+
+/- Full statement of the last clause of the property for failed commits ("every object that was new in
+   the transaction … can be added again later"), NOT provable for the code as it is (finding
+   C11:stored-new-object-ghostified-on-abort, open):
+
+     theorem failed_commit_keeps_state … (hout : (txnCommit bound s f).2 = .failed e) :
+       ∀ j, (∀ k, s.cache.get k ≠ some j) → (s.objs j).status ≠ .ghost →
+         ((txnCommit bound s f).1.objs j).status ≠ .ghost
+
+   Proved instead: the same under the hypothesis that the run did not go through the defect situation
+   (the instrumentation flag `d2`, raised exactly when an object is disowned while it is a ghost), plus
+   the precise description of the exception (the object was stored: it was in the cache when the failure
+   was noticed), and the witness below. -/
+
+/-- **failed_commit_keeps_state_partial.**  After a failed commit a new object still has its state (it is
+    not a ghost, payload and references as before: `failed_commit_outcome`) unless the defect flag was
+    raised by this commit. -/
+theorem failed_commit_keeps_state_partial (bound : Nat) (s : State) (hr : Reachable bound s)
+    (hop : s.opened = true) (f : Fail) (e : Err) (hout : (txnCommit bound s f).2 = .failed e)
+    (hd2 : (txnCommit bound s f).1.d2 = false) :
+    ∀ j, (∀ k, s.cache.get k ≠ some j) → (s.objs j).status ≠ .ghost →
+      ((txnCommit bound s f).1.objs j).status ≠ .ghost := by
+  obtain ⟨s0, t, e1, e2, _, _, _, _, _, rv⟩ := txnCommit_failed (reachable_good hr) hop bound f e hout
+  intro j hj hg0 hg
+  obtain ⟨_, _, _, h4⟩ := rv.fresh j (by rw [e2]; exact hj)
+  have := ((h4 (by rw [e1]; exact hg0)).2.2 hg).1
+  rw [hd2] at this; cases this
+
+/-- the program of the finding: another connection commits the root, this one adds object 1 explicitly
+    (payload 5), links it from the root and commits: conflict on the root after object 1 was stored -/
+def lostStateProgram : List Op := [.ext 0 7, .modify 1 5, .add 1, .link 0 1, .commit .none]
+
+/-- **failed_commit_loses_state** (negation witness of the full statement).  `lostStateProgram` is a C11
+    program; its commit fails with a conflict; afterwards object 1 — new, not a ghost, payload 5 before
+    the commit — belongs to no database and is a ghost: its state is lost. -/
+theorem failed_commit_loses_state :
+    (∀ op ∈ lostStateProgram, c11 op = true) ∧
+    ((run 3 init (lostStateProgram.take 4)).objs 1).status = .uptodate ∧
+    ((run 3 init (lostStateProgram.take 4)).objs 1).val = 5 ∧
+    (txnCommit 3 (run 3 init (lostStateProgram.take 4)) .none).2.isFailed = true ∧
+    ((run 3 init lostStateProgram).objs 1).oid = none ∧
+    ((run 3 init lostStateProgram).objs 1).status = .ghost ∧
+    (run 3 init lostStateProgram).d2 = true := by
+  decide
+
+/-- **ghost_shows_committed.**  "shows its last committed state again on next access": in every reachable
+    state of an open connection, accessing a ghost of the database loads exactly the record of the
+    current snapshot — which right after an abort or a failed commit is the committed record
+    (`Undone`: `snap = committed`). -/
+theorem ghost_shows_committed (bound : Nat) (s : State) (hr : Reachable bound s)
+    (hop : s.opened = true) (k j : Nat) (hc : s.cache.get k = some j)
+    (hg : (s.objs j).status = .ghost) :
+    ∃ r, s.snap.get k = some r ∧ (access s j).2 = none ∧
+      (access s j).1.objs j = { s.objs j with status := .uptodate, serial := r.serial, val := r.val,
+                                              refs := r.refs } :=
+  ghost_read (reachable_good hr).1 hop hc hg
+
+/-- **close_requires_unjoined.**  `close()` of a connection joined to a transaction is refused and changes
+    nothing (any state, reachable or not); and in every reachable state a connection that is NOT joined
+    holds nothing uncommitted: no registered, added or created object, no changed object, and every
+    object that has an oid is in the cache. -/
+theorem close_requires_unjoined (bound : Nat) (s : State) :
+    (s.needsToJoin = false → opClose s = (s, .err .connState)) ∧
+    (Reachable bound s → s.needsToJoin = true →
+      s.registered = [] ∧ s.added = [] ∧ s.creating = [] ∧ (∀ i, (s.objs i).status ≠ .changed) ∧
+      (∀ i, (s.objs i).oid ≠ none → ∃ k, s.cache.get k = some i)) :=
+  ⟨close_joined s, fun hr hn => unjoined_clean (reachable_good hr) hn⟩
+
+/-- **reuse_has_no_uncommitted_state.**  A connection that was closed (successfully) and is taken from the
+    pool again: nothing registered/added/created, no changed object, a fresh snapshot, and every cached
+    object is a ghost or shows exactly the committed record. -/
+theorem reuse_has_no_uncommitted_state (bound : Nat) (s : State) (hr : Reachable bound s)
+    (hok : (opClose s).2.isFailed = false) (hclosed : (opClose s).1.opened = false) :
+    let s2 := (opOpen (opClose s).1).1
+    s2.opened = true ∧ s2.registered = [] ∧ s2.added = [] ∧ s2.creating = [] ∧ s2.needsToJoin = true ∧
+    s2.snap = s2.committed ∧ (∀ i, (s2.objs i).status ≠ .changed) ∧
+    (∀ k i, s2.cache.get k = some i → ∃ c, s2.committed.get k = some c ∧
+      ((s2.objs i).status = .uptodate →
+        (s2.objs i).val = c.val ∧ (s2.objs i).refs = c.refs ∧ (s2.objs i).serial = c.serial)) ∧
+    (∀ i, (s2.objs i).oid ≠ none → ∃ k, s2.cache.get k = some i) :=
+  reuse_clean (reachable_good hr) hok hclosed
+
+/-- **no_step_but_commit_changes_storage** (used by C12 as well): nothing but a successful commit — of
+    this connection or of the other one — changes what other connections can read. -/
+theorem only_commit_changes_storage (bound : Nat) (s : State) (op : Op) :
+    (∃ tid oids, (step bound s op).2 = .committed tid oids) ∨ (∃ tid, (step bound s op).2 = .extOk tid) ∨
+    shared (step bound s op).1 = shared s :=
+  step_shared bound s op
+
+/-! ### non-vacuity: concrete programs reach the situations the theorems talk about -/
+
+/-- implicit add by reachability, then a successful commit of three objects in one transaction -/
+def progCommit : List Op := [.modify 0 5, .link 0 1, .link 1 2, .modify 2 7]
+
+example : ∀ op ∈ progCommit, c11 op = true := by decide
+example : (txnCommit 4 (run 4 init progCommit) .none).2 = .committed 2 [0, 1, 2] := by decide
+example : ((txnCommit 4 (run 4 init progCommit) .none).1.objs 2).serial = 2 ∧
+    ((txnCommit 4 (run 4 init progCommit) .none).1.objs 2).status = .uptodate ∧
+    (txnCommit 4 (run 4 init progCommit) .none).1.committed.get 2 = some ⟨2, 7, []⟩ := by decide
+
+/-- the same program with a commit failing at every phase: the new objects are disowned -/
+example : ∀ f ∈ [Fail.beforeBegin, .afterBegin, .store 0, .store 1, .store 2, .afterCommit, .vote, .afterVote],
+    (txnCommit 4 (run 4 init progCommit) f).2.isFailed = true ∧
+    ((txnCommit 4 (run 4 init progCommit) f).1.objs 1).oid = none ∧
+    ((txnCommit 4 (run 4 init progCommit) f).1.objs 2).oid = none ∧
+    ((txnCommit 4 (run 4 init progCommit) f).1.objs 2).val = 7 ∧
+    ((txnCommit 4 (run 4 init progCommit) f).1.objs 0).status = .ghost := by decide
+
+/-- a conflict: the other connection commits the root between this connection's read and commit -/
+example : (txnCommit 4 (run 4 init (.ext 0 9 :: progCommit)) .none).2 = .failed .conflict := by decide
+
+/-- close is refused while joined, allowed afterwards, and the reopened connection is clean -/
+example : (opClose (run 4 init progCommit)).2.isFailed = false ∧
+    (opClose (run 4 init progCommit)).1.opened = true := by decide
+example : (opClose (run 4 init (progCommit ++ [.abort]))).1.opened = false := by decide
+
 end Props.C11
